@@ -25,6 +25,7 @@ type Obl struct {
 	Fn     string
 	Inline string // inlining chain
 	HId    string // houdini candidate id
+	Parts  []Obl  // a grouped obligation (conjunction): solved individually only if the group is not discharged at once
 }
 
 // Ctx is the per-function VC generation context.
